@@ -73,6 +73,11 @@ def run(ctx):
         if "unstable" in out:
             rp.violation({"property": "C12", "class": "leaves-state-behind"}, "second execution of the same compiled program differs",
                          inp, out, lambda o: "unstable" in o)
+        if "remembers" in out:
+            rp.violation({"property": "C12", "class": "leaves-state-behind", "where": "compiled-program"},
+                         "an execution left something in the compiled program: its run no. %s (%s) differs from a fresh compilation of the same text "
+                         "on the same values" % (out["remembers"].get("run"), out["remembers"].get("on")), inp, out, lambda o: "remembers" in o)
+    ctx.cov["second_variable_map"] = rebind_stats(inputs, impl)
     # all cases again in the opposite order, in another process: no outcome may depend on what ran before it
     ctx.cov["order_dependent_outcomes"] = order_dependence(ctx, inputs, impl, rp, "C12", "leaves-state-behind")
     ctx.cov["replay_isolation"] = dict(rp.stats)
